@@ -13,8 +13,10 @@ import iolib, gens
 from iolib import RunDir, run_cli, sig, shim_env, read_trace, le32
 from vlib import Oracle, hx, md5
 
-THEOREMS = ["C14_exit0_sound", "C14_rm_order", "C14_rm_order_compress", "C14_multi_exit0", "C14_truncation", "C14_truncation_exit", "C14_pipe_no_exception"]
-CORRESPONDENCE = ["Io.decompress (ST model) == lz4 -d/-t of the ST build under the same input, seekable flag and I/O fault: exit status class, output on exit 0, source removal",
+THEOREMS = ["C14_exit0_sound", "C14_rm_order", "C14_rm_order_compress", "C14_multi_exit0", "C14_truncation", "C14_truncation_exit", "C14_pipe_no_exception", "C14_lz4f_st_concrete_sound", "C14_lz4f_st_fresh_sound"]
+CORRESPONDENCE = ["IoLz4f.lz4f_st_run (concrete LZ4IO_decompressLZ4F loop over Model.FrameD) == lz4 -d -c / -t of the ST build under the stdio tracer: sequence of fread (request, return) pairs, fwrite sizes, "
+                  "exit code when the loop exits the process (62/66/67/68), decoded bytes; and == Io.lz4f_st (abstract step over frame_decode) on status, output and bytes left in the source",
+                  "Io.decompress (ST model) == lz4 -d/-t of the ST build under the same input, seekable flag and I/O fault: exit status class, output on exit 0, source removal",
                   "Io.decompress (MT model) == lz4 -d/-t of the MT build (same observables)",
                   "Io.compress tail model == lz4 compression (frame ST/MT, legacy) under the same I/O fault: exit status class, source removal"]
 RULE = ("small multi-frame streams (2-4 frames over LZ4/legacy/skippable, own frame writer) x {every truncation point, every single-bit flip "
@@ -29,7 +31,7 @@ ASSUMPTIONS = ["process kill = the call trace stops at that point (what the kern
                "a cut inside the user data of a skippable frame on seekable input is unspecified (fseek past EOF is tolerated)",
                "blocks on which the library decoder deviates from the block specification (match offset 0, finding F5 of C05) are excluded",
                "fread never returns a short count without EOF or error (stdio semantics)"]
-ORACLES = ["block", "io"]
+ORACLES = ["block", "io", "iolz4f"]
 
 EXACT_CODES = {0, 1, 36, 40, 42, 43, 44, 45, 54}
 
@@ -60,6 +62,8 @@ def gen_cases(tier, seed):
     for i in range({"quick": 16, "search": 16, "thorough": 64}[tier]):
         cases.append({"kind": "fault", "op": ["dec", "dec", "test", "comp", "legacy", "dec_stdout", "dec_multi", "comp_multi"][i % 8],
                       "kinds": rng.choice(shapes), "sseed": rng.randrange(1 << 48), "sparse": (i // 8) % 2 == 1})
+    for i in range({"quick": 10, "search": 20, "thorough": 40}[tier]):
+        cases.append({"kind": "stloop", "sseed": rng.randrange(1 << 48), "big": i % 3 == 2})
     if tier == "thorough":
         cases.append({"kind": "fault", "op": "comp_big", "kinds": "L", "sseed": rng.randrange(1 << 48), "sparse": False})
     return cases
@@ -70,6 +74,7 @@ def worker_init(ctx):
         st["io"] = Oracle(name="io")
     except Exception:
         st["io"] = None
+    st["iolz4f"] = Oracle(name="iolz4f")
     return st
 
 # ------------------------------------------------------------------ helpers
@@ -613,6 +618,137 @@ def case_reg(acc, st, case, rng):
                 expect_fail("%d inputs with a wrong extension, -d -m" % n, ["-d", "-m", "-q", "-f"] + ["f%d.lz4" % i for i in range(n - 1)] + ["adir.txt"], None)
     rd.clean()
 
+# ------------------------------------------------------------------ the concrete ST LZ4F loop (Model/IoLz4f.v)
+def parse_loop(resp):
+    """oracle line -> (status, code, (outlen, outmd5), rest, rerr, reads [(want, got, err)], writes [(n, ok)])"""
+    t = resp.split()
+    if t[0] == "ret":
+        status, code, i = "ret", 0, 1
+    elif t[0] == "die":
+        status, code, i = "die", int(t[1]), 2
+    else:
+        raise RuntimeError("iolz4f oracle: " + resp[:200])
+    f = {}
+    out = (int(t[i][4:]), t[i + 1])
+    for x in t[i + 2:]:
+        k, v = x.split("=", 1); f[k] = v
+    reads, writes = [], []
+    for e in ([] if f["tr"] == "-" else f["tr"].split(",")):
+        if e[0] == "r":
+            w, g = e[1:].rstrip("!").split("/")
+            reads.append((int(w), int(g), e.endswith("!")))
+        elif e[0] == "w":
+            writes.append((int(e[1:-1]), e[-1] == "+"))
+    return status, code, out, int(f["rest"]), int(f["rerr"]), reads, writes
+
+def stloop_one(acc, st, data, tag, frame_len=None, content=None, test=False, rpos=None):
+    """one input (begins with an LZ4 frame magic) through the real ST binary under the stdio tracer and through the
+    concrete loop model: exit code when the loop exits the process, fread request/return sequence, fwrite sizes,
+    output; and the concrete model against the abstract step Io.lz4f_st (status, output, bytes left)."""
+    ctx = st["ctx"]; rd = st["rd"]; orc = st["iolz4f"]
+    src = rd.write("in.lz4", data); so = rd.f("out.bin"); log = rd.f("trace.log")
+    for p_ in (so, log):
+        try: os.remove(p_)
+        except OSError: pass
+    fault = ("rpos:%d" % rpos) if rpos is not None else None
+    args = (["-t"] if test else ["-d", "-c"]) + ["-q"]
+    rc, _, err = run_cli(ctx["ST"], args, stdin_path=src, stdout_path=so, env=shim_env(ctx["shim"], fault=fault, log=log), cwd=rd.path)
+    got = open(so, "rb").read() if os.path.exists(so) else b""
+    tr = read_trace(log)
+    rfreads = [(e["req"], e["ret"]) for e in tr if e["kind"] == "fread" and e["fid"] == 0]
+    rwrites = [e["req"] for e in tr if e["kind"] == "fwrite" and e["fid"] == 1]
+    rl = "rpos:%d" % (rpos - 4) if rpos is not None else "-"
+    resp = orc.ask("lz4fst", "1" if test else "0", rl, "-", hx(data[4:]))
+    status, code, mout, rest, rerr, reads, writes = parse_loop(resp)
+    acc.evals += 1
+    acc.stats["stloop_" + (status if status == "ret" else "die%d" % code)] += 1
+    acc.stats["stloop_freads"] += len(reads)
+    det = {"tag": tag, "len": len(data), "data": data.hex() if len(data) <= 600 else data[:64].hex() + "...", "test": test, "rpos": rpos,
+           "model": resp[:400], "rc": rc, "stderr": err[-200:]}
+    if code == -1:
+        acc.fail("corr_fail", "concrete loop model ran out of fuel (%s)" % tag, **det); return
+    # 1. the fread calls of the real loop = the ERead events of the model (after the 4 magic bytes read by selectDecoder)
+    if not rfreads or rfreads[0] != (4, 4):
+        acc.fail("harness_error", "trace does not start with the magic number read (%s)" % tag, **det); return
+    k = len(reads)
+    real = rfreads[1:1 + k]
+    if real != [(w, g) for w, g, e in reads]:
+        acc.fail("corr_fail", "fread sequence of LZ4IO_decompressLZ4F differs from the loop model (%s): real %s, model %s" %
+                 (tag, real[:12], [(w, g) for w, g, e in reads][:12]), **det); return
+    # 2. the fwrite calls
+    if not test:
+        m = [n for n, ok in writes]
+        if rwrites[:len(m)] != m:
+            acc.fail("corr_fail", "fwrite sizes differ from the loop model (%s): real %s, model %s" % (tag, rwrites[:8], m[:8]), **det); return
+    # 3. exit code when the loop itself exits the process; output
+    if status == "die":
+        if rc != code:
+            acc.fail("corr_fail", "exit code %d, the loop model exits with %d (%s)" % (rc, code, tag), **det); return
+        if not test and sig(got[:mout[0]]) != mout:
+            acc.fail("corr_fail", "bytes written before exit %d differ from the loop model (%s)" % (code, tag), **det); return
+    else:
+        if not test and sig(got[:mout[0]]) != mout:
+            acc.fail("corr_fail", "decoded bytes differ from the loop model (%s)" % tag, **det); return
+        if rest == 0 and rpos is None and rc != 0:
+            acc.fail("corr_fail", "the loop model completes and nothing follows, but the real exit code is %d (%s)" % (rc, tag), **det); return
+        if len(rfreads) > 1 + k and rfreads[1 + k][0] != 4:
+            acc.fail("corr_fail", "after the frame the real binary does not go on with a magic number read (%s)" % tag, **det); return
+    # 4. the loop reads exactly the frame (LZ4F's hints never exceed it), on a frame we know to be valid
+    if frame_len is not None and status == "ret":
+        if rest != len(data) - frame_len:
+            acc.fail("prop_fail", "LZ4IO_decompressLZ4F read %d bytes beyond the end of the frame (%s): bytes of what follows are lost" %
+                     (len(data) - frame_len - rest, tag), **det); return
+        if content is not None and not test and mout != sig(content):
+            acc.fail("corr_fail", "loop model output differs from the frame content (%s)" % tag, **det); return
+    # 5. the concrete loop against the abstract step Io.lz4f_st (one read, one write, frame_decode as decoder)
+    aresp = orc.ask("lz4fabs", "1" if test else "0", rl, "-", hx(data[4:]))
+    astatus, acode, aout, arest, arerr, areads, awrites = parse_loop(aresp)
+    acc.stats["stloop_abs_" + astatus] += 1
+    if astatus != status:
+        acc.fail("corr_fail", "refinement: concrete loop %s/%d, abstract step %s/%d (%s)" % (status, code, astatus, acode, tag), abstract=aresp[:300], **det); return
+    if status == "ret" and (aout != mout or arest != rest or sum(g for w, g, e in reads) != sum(g for w, g, e in areads)
+                            or sum(n for n, ok in writes) != sum(n for n, ok in awrites)):
+        acc.fail("corr_fail", "refinement: final state of the concrete loop differs from Io.lz4f_st (%s)" % tag, abstract=aresp[:300], **det); return
+    if status == "die" and code not in (62, 66, 67, 68, 70):
+        acc.fail("corr_fail", "unexpected exit code %d of the loop model (%s)" % (code, tag), **det); return
+    acc.keys.add(hashlib.sha1(("%s|%d|%s|%s" % (md5(data), len(data), test, rpos)).encode()).hexdigest())
+
+def case_stloop(acc, st, case, rng):
+    ctx = st["ctx"]
+    if case.get("big"):
+        raw = gens.data(rng, rng.choice(["runs", "random", "period", "zerorich", "barely"]), rng.choice([70000, 140000]))
+        cargs = rng.choice([["-1"], ["-9"], ["-BD", "-B4"], ["-BX"], ["--content-size"], ["--no-frame-crc"], ["-B5", "-BD"], ["-B7"]])
+        rc, fr, err = run_cli(ctx["ST"], cargs + ["-c", "-q"], stdin_bytes=raw)
+        if rc != 0:
+            raise RuntimeError("lz4 failed to compress: " + err[-200:])
+        content = raw; d = "cli" + "".join(cargs)
+    else:
+        fr, content, d = iolib.lz4_frame(rng, nblocks=rng.choice([0, 1, 2, 3, 5]), opts={"dictid": False})
+    n = len(fr)
+    big = bool(case.get("big"))
+    acc.stats["stloop_frames"] += 1
+    test = rng.random() < 0.3
+    stloop_one(acc, st, fr, "whole frame " + d, frame_len=n, content=content, test=test)
+    # something follows the frame: another frame, garbage, a skippable frame, a lone magic number
+    fr2, c2, d2 = iolib.lz4_frame(rng, nblocks=1, opts={"bsid": 4, "dictid": False})
+    tails = [(fr2, "second frame"), (rng.randbytes(rng.randrange(1, 40)), "garbage"), (le32(iolib.MAGIC_SKIP0 + 1) + le32(3) + b"abc", "skippable"),
+             (le32(iolib.MAGIC), "lone magic"), (b"\0", "one byte")]
+    for tail, tt in (tails[:2] if big else tails):
+        stloop_one(acc, st, fr + tail, "%s + %s" % (d, tt), frame_len=n, content=content, test=test)
+    # truncations (every cut for small frames, sampled otherwise) and bit flips
+    cuts = list(range(4, n)) if n <= 80 else sorted(set([4, 5, 6, 7, 8, 10, 11, 15, 19, n - 1, n - 4, n - 5, n - 8] + [rng.randrange(4, n) for _ in range(12)]))
+    if big:
+        cuts = [7, n - 1, n - 5, rng.randrange(4, n), rng.randrange(4, n)]
+    for c in cuts:
+        if 4 <= c < n:
+            stloop_one(acc, st, fr[:c], "%s cut at %d/%d" % (d, c, n), test=test)
+    for _ in range(3 if big else (12 if n > 80 else 30)):
+        i = rng.randrange(4, n); b = bytearray(fr); b[i] ^= 1 << rng.randrange(8)
+        stloop_one(acc, st, bytes(b), "%s bit flip at %d" % (d, i), test=test)
+    # read errors inside and after the frame
+    for _ in range(2 if big else 6):
+        stloop_one(acc, st, fr + fr2, "%s read limit" % d, test=test, rpos=rng.randrange(5, n + 6))
+
 def run_case(st, case):
     rng = random.Random(case["sseed"])
     acc = Acc(case)
@@ -624,6 +760,7 @@ def run_case(st, case):
         elif k == "garbage": case_garbage(acc, st, case, rng)
         elif k == "rm_multi": case_rm_multi(acc, st, case, rng)
         elif k == "fault": case_fault(acc, st, case, rng)
+        elif k == "stloop": case_stloop(acc, st, case, rng)
     finally:
         st["rd"].clean()
     return acc.out()
